@@ -130,7 +130,8 @@ def opSelect (args res : List String) : Verdict :=
     let n := n.toNat!
     let ver := v.toNat!
     let forced := optNat f
-    let (cands, _tail) := parseCands k.toNat! rest
+    let (cands, tail) := parseCands k.toNat! rest
+    let finalM : Array Nat := match tail with | m :: _ => parseNibbles m | [] => #[]
     let rm := regionMap ver
     -- the spec reads the candidates with the ISO region map, not with the crate's labels
     let grid (a : Array Nat) : Spec.Grid := ⟨n, Array.ofFn (n := a.size) fun i => a.getD i.val 0 % 2 + 2 * rm.getD i.val 1⟩
@@ -145,6 +146,13 @@ def opSelect (args res : List String) : Verdict :=
       (match unmasked with
        | [] => some "no-candidates"
        | u :: us => if us.all (· == u) then none else some "candidates-are-not-masks-of-one-placed-matrix"),
+      -- the emitted symbol carries the chosen mask: its encoding region is that candidate's
+      (match cands.find? (·.1 == chosenN) with
+       | none => some "chosen-mask-not-among-candidates"
+       | some (_, _, a) =>
+         (List.range (n * n)).findSome? fun i =>
+           if rm.getD i 1 == 0 && a.getD i 0 % 2 != finalM.getD i 0 % 2
+           then some s!"emitted-symbol-is-not-masked-with-the-reported-mask:cell({i / n},{i % n})" else none),
       (match forced with
        | some fm => cmp "forced-mask-overrides" (toString fm) (toString chosenN)
        | none =>
